@@ -6,6 +6,7 @@ CONSTANTS
   RModes = {"trunc", "failat", "strunc", "sfail"}
   Chunk = 3
   Probe = TRUE
+  SMaxLen = 7
 SPECIFICATION Spec
 INVARIANT WErrIffShort
 INVARIANT WCountAccepted
@@ -16,5 +17,9 @@ INVARIANT RTruncRejected
 INVARIANT RStreamFail
 INVARIANT RIntactOK
 INVARIANT RFailNeeded
+INVARIANT SCutRejected
+INVARIANT SCutOptional
+INVARIANT SFailRejected
+INVARIANT SIntactOK
 INVARIANT Bounds
 CHECK_DEADLOCK FALSE
